@@ -201,8 +201,10 @@ class Diff(Contract):
             for d in range(rank):
                 for scheme in ("backward", "forward", "centered", "nonsense"):
                     for keep in (False, True):
-                        for n in (1, 2):
-                            if n == 2 and (keep or scheme not in ("backward", "forward")):
+                        for n in (1, 2, 3):
+                            if n >= 2 and (keep or scheme == "nonsense"):
+                                continue          # n >= 2 with keepaxis: bounded stand-in (DiffNative)
+                            if n == 3 and rank == 2 and tier == "quick":
                                 continue
                             if scheme == "centered" and rank == 2 and d == 1:
                                 continue          # midpoints of string labels are not defined
@@ -252,7 +254,10 @@ class Diff(Contract):
             elif case["scheme"] == "forward":
                 yield "forward-drops-the-last-n-labels", S.forall(0, m, lambda k: S.implies(k < S.n(Lr), lambda: S.at(Lr, k) == S.at(L, k)))
             else:
-                yield "centered-takes-successive-midpoints", S.forall(0, m, lambda k: S.implies(k < S.n(Lr), lambda: 2 * S.at(Lr, k) == S.at(L, k) + S.at(L, k + 1)))
+                # successive midpoints, n times over: 2^n * new[k] = sum_j C(n, j) * old[k + j]
+                binom = {1: (1, 1), 2: (1, 2, 1), 3: (1, 3, 3, 1)}[n]
+                yield "centered-takes-successive-midpoints", S.forall(0, m, lambda k: S.implies(k < S.n(Lr), lambda: (2 ** n) * S.at(Lr, k) == sum(
+                    c * S.at(L, k + j) for j, c in enumerate(binom))))
             shape = [S.n(labels[e]) if e != d else m for e in range(rank)]
             yield "values-equal-numpys-nth-difference", S.forall_nd(shape, lambda *ks: S.same(S.at(rv, *ks), S.at(ref, *ks)))
         else:
@@ -340,4 +345,68 @@ class ReduceNativeOnly(Contract):
             yield "metadata-kept", S.is_dimarray(result) and dict(result.attrs) == env["attrs0"]
         else:
             yield "scalar-when-no-dimension-remains", (not S.is_dimarray(result)) and np.ndim(result) == 0 and not isinstance(result, np.ndarray)
+        yield "operand-untouched", _untouched(S, env, rank)
+
+
+class DiffNative(Contract):
+    """BOUNDED STAND-IN ONLY (never counted as proved).  diff for every order n in 1..3 with BOTH keepaxis settings -- the
+    symbolic contract Diff covers keepaxis only for n = 1, because n >= 2 re-differences a NaN-padded array and NumPy's
+    difference is an uninterpreted function there.  Reference, from the statement: values are np.diff(values, n, axis); the
+    axis loses its first n (backward) / last n (forward) labels or becomes the n-fold successive midpoints (centered); with
+    keepaxis the axis is the original one and n NaN slices pad the front (backward) / the end (forward).  Evaluated on the
+    real code over arrays of rank 1-2, extents 1-4, unsorted numeric labels.  [C09]"""
+    target = "dimarray.core.transform:diff"
+    props = ("C09",)
+    native_only = True
+
+    def cases(self, tier):
+        for rank in (1, 2):
+            for d in range(rank):
+                for scheme in ("backward", "forward", "centered"):
+                    for keep in (False, True):
+                        if scheme == "centered" and keep:
+                            continue
+                        for n in (1, 2, 3):
+                            yield {"name": "r%d-axis%d-%s-%s-n%d" % (rank, d, scheme, "keepaxis" if keep else "shorten", n),
+                                   "rank": rank, "d": d, "scheme": scheme, "keep": keep, "n": n}
+
+    def setup(self, S, case):
+        arr, labels, data = make_dimarray(S, case["rank"], kinds=("f", "f"), attrs={"units": "K"})
+        for L in labels:
+            S.assume(S.n(L) >= 1, "every dimension has at least one label")
+        return {"arr": arr, "labels": labels, "data": data, "attrs0": dict(arr.attrs)}
+
+    def call(self, fn, env):
+        c = env["case"]
+        return env["arr"].diff(axis="x%d" % c["d"], scheme=c["scheme"], keepaxis=c["keep"], n=c["n"])
+
+    def post(self, S, case, env, result):
+        import numpy as np
+        d, n, rank = case["d"], case["n"], case["rank"]
+        data = np.asarray(env["data"], dtype=float)
+        L = np.asarray(env["labels"][d], dtype=float)
+        ref = np.diff(data, n=n, axis=d)
+        if case["keep"]:
+            pad_shape = list(data.shape); pad_shape[d] = min(n, data.shape[d])
+            pad = np.full(pad_shape, np.nan)
+            ref = np.concatenate([pad, ref] if case["scheme"] == "backward" else [ref, pad], axis=d)
+            labs = L
+        elif case["scheme"] == "backward":
+            labs = L[n:]
+        elif case["scheme"] == "forward":
+            labs = L[:len(L) - n] if len(L) >= n else L[:0]
+        else:
+            labs = L
+            for _ in range(n):
+                labs = 0.5 * (labs[:-1] + labs[1:])
+        def same(x, y):
+            x, y = np.asarray(x, dtype=float), np.asarray(y, dtype=float)
+            return x.shape == y.shape and bool(np.all((x == y) | (np.isnan(x) & np.isnan(y))))
+        yield "is-dimarray-with-all-dims", S.is_dimarray(result) and tuple(result.dims) == tuple("x%d" % e for e in range(rank))
+        yield "values-are-numpys-nth-difference-padded-as-stated", same(result.values, ref)
+        yield "differenced-axis-relabelled-per-scheme", same(result.axes[d].values, labs)
+        for e in range(rank):
+            if e != d:
+                yield "dim%d:labels-unchanged" % e, same(result.axes[e].values, env["labels"][e])
+        yield "metadata-kept", dict(result.attrs) == env["attrs0"]
         yield "operand-untouched", _untouched(S, env, rank)
